@@ -11,6 +11,7 @@ Definition inval_of (s:st) (o:op) : option stage :=
   | SetDV k _ => if has_sub s (fst k) && has_dv s k then Some (d_inval (get_dv k s)) else None
   | InvalidateAll g => if (1 <=? g) && (g <=? 10) then Some g else None
   | InvalidateCache g => if (3 <=? g) && (g <=? 10) then Some g else None
+  | UpdSub w ss => if has_sub s ss && sub_ok w then Some (ws_stage w) else None
   | _ => None
   end.
 
@@ -29,7 +30,9 @@ Proof. destruct o; cbn [inval_of]; try discriminate; unfold step.
   - intros H; inversion H; subst. split; auto. cbn [fst ok].
     destruct w; auto using shape_noteQ, shape_noteU, shape_noteZ, shape_noteY.
   - destruct (has_sub s (fst k) && has_dv s k) eqn:E; try discriminate. intros H; inversion H; subst. cbn [negb snd fst ok]. split; auto.
-    rewrite shape_notify, shape_upd_dv. destruct (d_auto (get_dv k s)); auto using shape_inval_ce. Qed.
+    rewrite shape_notify, shape_upd_dv. destruct (d_auto (get_dv k s)); auto using shape_inval_ce.
+  - destruct (has_sub s ss && sub_ok w) eqn:E; try discriminate. intros H; inversion H; subst. cbn [negb snd fst ok]. split; auto.
+    destruct w; auto using shape_noteQ, shape_noteU, shape_noteZ. Qed.
 
 (** Changing a variable lowers the realized stage of the system and of every subsystem to
     min(current, invalidated stage - 1); the call does not throw and the number of subsystems is unchanged.
@@ -170,18 +173,24 @@ Proof. vm_compute. repeat split. Qed.
 (* ================================================================= value versions, values *)
 (** Value versions (q, u, z, every discrete variable, every cache entry) never decrease under a run-time operation;
     setDiscreteVariable writes the value and bumps the variable's value version by exactly one; updQ/updU/updZ/updY bump
-    exactly the versions of what they hand out (updTime none). *)
+    exactly the versions of what they hand out (updTime none), and so do the per-subsystem accessors updQ/updU/updZ(subsys)
+    (the per-subsystem weight accessors none). *)
 Theorem value_versions_monotone_and_change_on_upd cf s : WF s ->
   (forall o, runtime s o = true -> le_vals s (fst (step cf s o))) /\
   (forall k v, runtime s (SetDV k v) = true -> has_sub s (fst k) && has_dv s k = true ->
       d_val (get_dv k (fst (step cf s (SetDV k v)))) = v /\ d_valver (get_dv k (fst (step cf s (SetDV k v)))) = S (d_valver (get_dv k s))) /\
   qvs (fst (step cf s (Upd WQ))) = (S (qv s), uv s, zv s) /\ qvs (fst (step cf s (Upd WU))) = (qv s, S (uv s), zv s) /\
   qvs (fst (step cf s (Upd WZ))) = (qv s, uv s, S (zv s)) /\ qvs (fst (step cf s (Upd WY))) = (S (qv s), S (uv s), S (zv s)) /\
-  qvs (fst (step cf s (Upd WT))) = qvs s.
+  qvs (fst (step cf s (Upd WT))) = qvs s /\
+  (forall ss, has_sub s ss = true ->
+      qvs (fst (step cf s (UpdSub WQ ss))) = (S (qv s), uv s, zv s) /\ qvs (fst (step cf s (UpdSub WU ss))) = (qv s, S (uv s), zv s) /\
+      qvs (fst (step cf s (UpdSub WZ ss))) = (qv s, uv s, S (zv s)) /\
+      (forall w, w = WUW \/ w = WZW \/ w = WQEW \/ w = WUEW -> qvs (fst (step cf s (UpdSub w ss))) = qvs s)).
 Proof. intros W. split; [|split].
   - intros o R. apply step_le_vals; auto.
   - intros k v R H. apply step_setdv; auto.
-  - apply step_upd_versions; auto. Qed.
+  - destruct (step_upd_versions cf s W) as (A & B & C & D & E). repeat (split; auto).
+    all: destruct (step_updsub_versions cf s ss W H) as (A' & B' & C' & D'); auto. Qed.
 
 (** Auto-update variables swap only on request: no run-time operation other than autoUpdateDiscreteVariables and
     setDiscreteVariable of that very variable changes a discrete variable (value or value version); one auto-update turn
